@@ -542,9 +542,26 @@ func (ex *Exec) indexSub(s Str, sub string) *Term {
 		return ex.indexByteStr(s, sub[0])
 	}
 	if s.HasOpaque() {
-		// sub-strings of length ≥ 2 cannot be matched across opaque content;
-		// only support when sub cannot start inside byte segments adjacent
-		ex.unsupported("strings.Index with multi-byte pattern on opaque rope")
+		// a match wholly inside a byte segment is a definite answer; whether
+		// uninterpreted content contains the pattern is not decidable here
+		cum := ts.Const(64, 0)
+		for _, g := range s.Segs {
+			if g.opaque() {
+				cum = ts.Add(cum, g.Len)
+				continue
+			}
+			for i := 0; i+len(sub) <= len(g.B); i++ {
+				c := ts.True()
+				for j := 0; j < len(sub); j++ {
+					c = ts.And(c, ts.Eq(g.B[i+j], ts.Const(8, uint64(sub[j]))))
+				}
+				if ex.branch(c) {
+					return ts.Add(cum, ts.Const(64, uint64(i)))
+				}
+			}
+			cum = ts.Add(cum, ts.Const(64, uint64(len(g.B))))
+		}
+		ex.unsupported("strings.Index(%q) on a rope with opaque chunks and no match in its literal parts", sub)
 	}
 	bs := flatBytes(s)
 	for i := 0; i+len(sub) <= len(bs); i++ {
